@@ -229,7 +229,15 @@ def main():
     items = build_items(consts) + offset_items(rng, 8 if tier == "quick" else 100)
     builds = [{"name": "gcc-O0", "cc": "gcc", "cflags": ("-O0",)}, {"name": "gcc-O2", "cc": "gcc", "cflags": ("-O2",)},
               {"name": "clang-O0", "cc": "clang", "cflags": ("-O0",)}, {"name": "clang-O2", "cc": "clang", "cflags": ("-O2",)}]
-    st, exp = machine.replay(v, items, builds, sigfn=sig)
+    # the translator run by a user whose locale writes the decimal point as a comma: the literals must not depend on it
+    wdl = common.scratch("c07loc-")
+    cenv = machine.comma_locale(wdl)
+    if cenv:
+        builds.append({"name": "gcc-O0-decimal-comma-locale", "cc": "gcc", "cflags": ("-O0",), "w2c2_env": cenv})
+    try:
+        st, exp = machine.replay(v, items, builds, sigfn=sig)
+    finally:
+        shutil.rmtree(wdl, ignore_errors=True)
     wd2 = common.scratch("c07big-")
     try:
         nbig = big_offsets(v, wd2)
